@@ -513,6 +513,9 @@ func main() {
 		if sniff.Part == "cancel" {
 			replayCancel(p)
 		}
+		if sniff.Part == "callopts" {
+			replayOpts(p)
+		}
 		measureControl()
 		var c kase
 		if err := common.LoadReplay(p, &c); err != nil || c.Kind == "" {
@@ -701,6 +704,36 @@ func main() {
 		}
 	}
 
+	// the call-options part (callopts.go): first over the standard transport (thorough), then in-process
+	optsCases := optsGrammar()
+	optsRefRuns := 0
+	if thorough {
+		for _, o := range runOptsPart(optsCases, workers, true) {
+			optsRefRuns++
+			if o.internal != "" {
+				inconclusive("bufconn reference, " + o.c.String() + ": " + o.internal)
+			}
+			if len(o.findings) > 0 {
+				f := o.findings[0]
+				inconclusive(fmt.Sprintf("the oracle disagrees with grpc-go over bufconn on %s: %s (%s, %s): %s", o.c, f.Clause, f.Where, f.When, f.Detail))
+			}
+		}
+		refRuns += optsRefRuns
+	}
+	optsOuts := runOptsPart(optsCases, workers, false)
+	optsLooks := 0
+	for _, o := range optsOuts {
+		if o.internal != "" {
+			inconclusive(o.c.String() + ": " + o.internal)
+		}
+		optsLooks += o.looks
+	}
+	ogroups, oorder := groupOpts(optsOuts)
+	for _, k := range oorder {
+		g := ogroups[k]
+		rep.Violation(k, fmt.Sprintf("%s [%d observations in the call-options part; caller actions with a failing case: %s; instants of the action: %s; the replay is the simplest case]", g.detail, g.n, setNames(g.acts), setNames(g.whens)), g.first)
+	}
+
 	ctxCases := contextGrammar(allBases)
 	dlCases := deadlineGrammar(allBases, thorough)
 	mdCases := mdGrammar(allBases)
@@ -724,8 +757,13 @@ func main() {
 
 	outs := runAll(cases, workers)
 
-	evals, cutShort := len(cancelOuts), 0
+	evals, cutShort := len(cancelOuts)+len(optsOuts), 0
 	distinct := map[string]bool{}
+	for _, o := range optsOuts {
+		if o.looks > 0 {
+			distinct[o.c.String()] = true
+		}
+	}
 	for _, o := range cancelOuts {
 		if o.ended && o.live {
 			distinct[o.c.String()] = true
@@ -874,16 +912,19 @@ func main() {
 		"evaluations":         evals + reuseEvals,
 		"distinct_nontrivial": len(distinct),
 		"grammar": map[string]interface{}{
-			"context_grammar_cases":    len(ctxCases),
-			"deadline_expiry_cases":    len(dlCases),
-			"metadata_sweep_cases":     len(mdCases),
-			"key_alphabet_cases":       len(keyCases),
-			"key_alphabet":             keyAlphabetNames(),
-			"pinned_reuse_cases":       len(reuseCases),
-			"cancel_part_cases":        len(cancelCases),
-			"pinned_reuse_runs":        reuseEvals,
-			"instants_per_case":        "handler: entry, parked, context-end (after-cancel / after-deadline), after the caller's call returned; interceptor: entry, after the handler returned",
-			"lookups_per_late_instant": lookups,
+			"context_grammar_cases":                            len(ctxCases),
+			"deadline_expiry_cases":                            len(dlCases),
+			"metadata_sweep_cases":                             len(mdCases),
+			"key_alphabet_cases":                               len(keyCases),
+			"key_alphabet":                                     keyAlphabetNames(),
+			"pinned_reuse_cases":                               len(reuseCases),
+			"cancel_part_cases":                                len(cancelCases),
+			"call_options_part_cases":                          len(optsCases),
+			"call_options_part_looks":                          optsLooks,
+			"call_options_part_reference_runs_on_grpc_bufconn": optsRefRuns,
+			"pinned_reuse_runs":                                reuseEvals,
+			"instants_per_case":                                "handler: entry, parked, context-end (after-cancel / after-deadline), after the caller's call returned; interceptor: entry, after the handler returned",
+			"lookups_per_late_instant":                         lookups,
 		},
 		"nontrivial_by_end_of_context":                                 byEnd,
 		"cancel_part_cases_where_the_watched_context_was_seen_done":    cancelEnded,
